@@ -59,6 +59,9 @@ func usable(impl string) bool {
 
 // checkIntent: the oracle on one program.  Returns a failure or nil.
 func (rn *runner) checkIntent(p *Prog, impl string) *vl.OracleFail {
+	if rn.saturated() {
+		return rn.cheapIntent(p, impl)
+	}
 	if p.Expect == "ok" {
 		exp, valid := expectedDump(p)
 		if !valid {
@@ -109,10 +112,31 @@ func (rn *runner) checkIntent(p *Prog, impl string) *vl.OracleFail {
 	return nil
 }
 
+// saturated: enough failing inputs have been minimised; further failures are only counted.
+func (rn *runner) saturated() bool { return len(rn.out.Oracle) >= 6 }
+
+func (rn *runner) cheapIntent(p *Prog, impl string) *vl.OracleFail {
+	bad := false
+	if p.Expect == "ok" {
+		exp, valid := expectedDump(p)
+		bad = valid && impl != exp
+	} else {
+		bad = strings.HasPrefix(impl, "ok ") || ((impl == "err:crash" || impl == "err:timeout" || impl == "err:died") && p.Expect != "crash")
+	}
+	if bad {
+		rn.out.Count("oracle-failures-not-minimised")
+	}
+	return nil
+}
+
 // checkOrder: the outcome must not depend on the order of definitions.
 func (rn *runner) checkOrder(p *Prog, impl string, q *Prog, implQ string) *vl.OracleFail {
 	same := okness(impl) == okness(implQ) && (okness(impl) != "ok" || impl == implQ)
 	if same {
+		return nil
+	}
+	if rn.saturated() && p.Expect != "crash" {
+		rn.out.Count("oracle-failures-not-minimised")
 		return nil
 	}
 	if p.Expect == "crash" {
